@@ -605,7 +605,11 @@ class Interp:
             return
         if isinstance(v, Untracked):
             raise Unsupported('untracked value stored into tracked map field %r' % (field,))
-        if isinstance(v, SymOpt):
+        if isinstance(v, SymOpt) and getattr(m, 'may_hold_none', None) is not None:
+            # a dict that may hold None values: the Optional is stored as the value it stands for - its own value, or a value that IS None
+            self.ctx.check('stored_optional_is_present_or_a_none_value', z3.Or(v.is_some, m.may_hold_none(to_z3(v.value))), 'auxiliary')
+            v = v.value
+        elif isinstance(v, SymOpt):
             # an Optional stored into a tracked map: it must be present on this path (None values are not tracked)
             self.ctx.check('stored_optional_is_present', v.is_some, 'auxiliary')
             v = v.value
@@ -2136,7 +2140,11 @@ class Interp:
                 zk = self.map_key(o, args[0])
                 val = wrap(z3.Select(o.fields[None], zk))
                 if len(args) == 1 or args[1] is None:
-                    return SymOpt(z3.IsMember(zk, o.dom), val)
+                    some = z3.IsMember(zk, o.dom)
+                    if getattr(o, 'may_hold_none', None) is not None:
+                        # the contract says this dict may hold None as a VALUE: d.get(k) is None also for a key that is present with the value None
+                        some = z3.And(some, z3.Not(o.may_hold_none(z3.Select(o.fields[None], zk))))
+                    return SymOpt(some, val)
                 m = self.merge_values(z3.IsMember(zk, o.dom), val, args[1])
                 if m is _MISSING:
                     raise Unsupported('dict.get default of a different type')
